@@ -1460,6 +1460,18 @@ class DynGraph(nx.Graph):
         # @todo: implement (page 8, Latapy)
         pass
 
+    def clear(self):
+        """Remove all nodes and interactions from the graph, together with its snapshots and event log."""
+        super(self.__class__, self).clear()
+        self.time_to_edge.clear()
+        self.snapshots.clear()
+
+    def clear_edges(self):
+        """Remove all interactions from the graph (nodes are kept), together with its snapshots and event log."""
+        super(self.__class__, self).clear_edges()
+        self.time_to_edge.clear()
+        self.snapshots.clear()
+
     @not_implemented()
     def remove_edge(self, u, v):
         pass
